@@ -1318,7 +1318,12 @@ class SetIndexBlockwise(Blockwise):
                 self,
                 parent,
                 dependents,
-                additional_columns=_convert_to_list(self.other),
+                # a Series expression as the new index is no column of the frame
+                additional_columns=(
+                    None
+                    if isinstance(self.other, Expr)
+                    else _convert_to_list(self.other)
+                ),
             )
             if self.frame.columns == columns:
                 return
